@@ -76,7 +76,7 @@ def unsupported_cases(draw):
         desc = draw(files.spec_file_2d(max_voxels=40_000))
     else:
         rate, bs = draw(st.sampled_from([s for s in gen.SETTINGS_3D if not (s[0] == 2 and s[1] == (4, 4, 1024))]))
-        shape = draw(gen.shape3d(bs, max_voxels=60_000, max_traces=400))
+        shape = draw(gen.shape3d(bs, max_voxels=60_000, max_traces=400, magnitudes="lines"))
         desc = {"kind": "spec", "family": "other", "rate": rate, "blockshape": list(bs), "shape": list(shape),
                 "version": "0.2.8", "values": draw(gen.values_spec), "il": [1, 1], "xl": [1, 1], "arrays": [189, 193]}
     return {"file": desc, "unsupported": True}
